@@ -876,7 +876,7 @@ class _MirrorNoSwap(ast.NodeTransformer):
 
 
 U_TMIRROR = Unit(P + '/taper1-mirror', ['taper1'], t_taper1_mirror, SCH,
-                 canaries=[Canary('taper1-mirror-without-swapping-ends', 'taper1', _MirrorNoSwap, [P + '/taper1[end = 1]/piece-k'])])
+                 canaries=[Canary('taper1-mirror-without-swapping-ends', 'taper1', _MirrorNoSwap, [P + '/taper1[end = 1]/piece-k', P + '.taper1.mirror'])])
 
 
 # ================================================================ taper1 / taper2: the effective lower limit
